@@ -36,17 +36,21 @@ class Sage(Inc):
         self.model_calls = [(ev, ctx) for ev, ctx in walk(s.events) if is_call_to(ev, self.mf) and ev.method is None]
 
 
+def undecided_bookkeeping(sg):
+    """The loss before a step may be kept in a container that the walk fills (a list of the losses seen so far,
+    indexed by position) instead of a variable: that bookkeeping is not followed -- no verdict."""
+    filled = {ev.recv for ev, _ in sg.body if isinstance(ev, ir.Mut) and ev.method in ("append", "insert", "extend")}
+    for ev, _ in sg.credits:
+        if any(t[0] == "sub" and t[1] in filled for t in ir.subterms(ev.value)):
+            raise AnalysisError(f"{sg.fq}: the losses along the chain are kept in a container filled during the walk "
+                                f"({ir.show_nl(ev.value)[:100]}); this bookkeeping is not decided")
+
+
 def telescope(sg, rule):
     """credit = c_in - new under the loop-target key; c_out = new; the dict reaches the importance trackers."""
     run, s, fq = sg.run, sg.s, sg.fq
     if sg.carried is None:
-        # the loss before a step may be kept in a container that the walk fills (a list of the losses seen so
-        # far, indexed by position) instead of a variable: that bookkeeping is not followed -- no verdict
-        filled = {ev.recv for ev, _ in sg.body if isinstance(ev, ir.Mut) and ev.method in ("append", "insert", "extend")}
-        for ev, _ in sg.credits:
-            if any(t[0] == "sub" and t[1] in filled for t in ir.subterms(ev.value)):
-                raise AnalysisError(f"{fq}: the losses along the chain are kept in a container filled during the walk "
-                                    f"({ir.show_nl(ev.value)[:100]}); this bookkeeping is not decided")
+        undecided_bookkeeping(sg)
         run.fail(rule, "chain.carry", sg.where(sg.L.line), fq, "no loop-carried loss",
                  "the loss before revealing a feature is not carried over from the previous chain step (the loss after "
                  "revealing must become the loss before the next feature)")
